@@ -1,9 +1,10 @@
 #!/bin/bash
-# every thorough check once (about 25 min each on an idle 16-core machine)
+# every thorough check once (about 25 min each on an idle 16-core machine); optional argument: budget in seconds per check
 cd "$(dirname "$0")/.."
+B=${1:+--budget $1}
 /venv/bin/python checks/setup.py >/dev/null 2>&1
 for p in C18 C14 C13 C08 C17; do
-  out=$(timeout 5400 /venv/bin/python checks/run.py $p --tier thorough 2>&1); rc=$?
+  out=$(timeout 5400 /venv/bin/python checks/run.py $p --tier thorough $B 2>&1); rc=$?
   echo "$p rc=$rc $(echo "$out" | grep "^\[$p\]" | tail -1)"
   echo "$out" | grep -E "VIOLATION|HARNESS|KNOWN|signature" | cut -c1-300 | head -8
   cp evidence/$p.json evidence/$p.thorough.json 2>/dev/null
